@@ -444,6 +444,35 @@ def apply_fn_rules(fn, d, log):
     body = strip_attrs_and_docs(body, log)
     sig = drop_auto_traits(sig, log)
     body = drop_auto_traits(body, log)
+    # T12: prefix verification -- the first n top-level statements are kept, the rest of the body is replaced by an opaque continuation
+    # that gets only the listed arguments; refused when the dropped statements mention `self` (they could touch state the prefix decided on)
+    if d.get("keep_stmts"):
+        toks = [t for t in lex(body) if t[0] in CODE]
+        depth, count, cut_at = 0, 0, None
+        for k, (kind, a, b) in enumerate(toks):
+            t = body[a:b]
+            if kind != "punct":
+                continue
+            if t in "([{":
+                depth += 1
+            elif t in ")]}":
+                depth -= 1
+                if t == "}" and depth == 1:
+                    nxt = body[toks[k + 1][1]:toks[k + 1][2]] if k + 1 < len(toks) else ""
+                    if nxt not in ("else", ".", "?", ";", ")", ","):
+                        count += 1
+            elif t == ";" and depth == 1:
+                count += 1
+            if count == d["keep_stmts"]["n"] and cut_at is None and depth == 1:
+                cut_at = b
+                break
+        if cut_at is None:
+            raise ExtractError("keep_stmts: %s has fewer than %d top-level statements" % (d["name"], d["keep_stmts"]["n"]))
+        dropped = body[cut_at:body.rstrip().rfind("}")]
+        if any(body[cut_at:][a:b] == "self" for (kind, a, b) in lex(body[cut_at:]) if kind == "ident"):
+            raise ExtractError("keep_stmts: the dropped part of %s mentions `self`" % d["name"])
+        body = body[:cut_at] + "\n        " + d["keep_stmts"]["repl"] + "\n    }"
+        log.append({"rule": "T12/keep_stmts", "fn": d["name"], "kept": d["keep_stmts"]["n"], "dropped_chars": len(dropped)})
     # R4g: every invocation `name!( .. )` of a listed macro is replaced by one expression (token-balanced, so string contents do not matter)
     for mac in d.get("macros", []):
         n = 0
@@ -691,6 +720,12 @@ class Unit:
                         if len(body) != 1:
                             raise ExtractError("//@cut needs exactly 1 line")
                         d.setdefault("cuts", []).append({"open": sec[1].strip(), "repl": body[0].strip()})
+                    elif kind == "keep_stmts":
+                        # //@keep_stmts n  + one line: the opaque continuation that replaces every statement after the n-th top-level one (T12)
+                        body = [b for b in buf if b.strip() != ""]
+                        if len(body) != 1:
+                            raise ExtractError("//@keep_stmts needs exactly 1 line")
+                        d["keep_stmts"] = {"n": int(sec[1].split()[0]), "repl": body[0].strip()}
                     elif kind == "macro":
                         # //@macro <name>  + one line: the expression every `<name>!(..)` invocation is replaced by (token-balanced)
                         body = [b for b in buf if b.strip() != ""]
